@@ -795,3 +795,53 @@ def own_ix(run, ctx):
             run.violation(fam, label, "%s/%s" % (sp, how), H.where(nd), "a Match is constructed in %s: spans may only be built from a successful run's slot pair or an engine span (Match::new in find_from_pos*, Captures::get)" % sp)
     run.floor(fam, label, "src/lib.rs", len(sites), 4, "Match construction sites")
     run.ok(fam, label, "src/lib.rs", len(sites), "Match built only in Match::new, Captures::get and find_from_pos_with_option_flags")
+
+
+def run_returns(run, ctx):
+    """vm::run may only leave through End (a match), the exhausted stack (no match), the limit error, or a
+    propagated StackOverflow: no shortcut answers."""
+    fam, label = "VMARM", "run-exits"
+    fn = vm_run(run, ctx, fam, label)
+    if fn is None:
+        return
+    rets = [nd for nd in H.walk(fn["body"]) if nd.get("k") == "Ret"]
+    tries = [nd for nd in H.walk(fn["body"]) if nd.get("k") == "Try"]
+    allowed = {"return Ok(Some(state.saves))": "End", "return Ok(None)": "exhausted",
+               "return Err(Error::RuntimeError(RuntimeError::BacktrackLimitExceeded))": "limit"}
+    seen = {}
+    for r in rets:
+        c = H.canon(r)
+        if c not in allowed:
+            run.violation(fam, label, "return/" + c[:50], H.where(r), "vm::run returns `%s`: a search may only end at Insn::End, with an exhausted branch stack, or with a limit error" % c[:100])
+        seen[allowed.get(c, c)] = seen.get(allowed.get(c, c), 0) + 1
+    for k in ("End", "exhausted", "limit"):
+        if seen.get(k, 0) != 1:
+            run.violation(fam, label, "count/" + k, H.where(fn), "vm::run must have exactly one `%s` exit (found %d)" % (k, seen.get(k, 0)))
+    for t in tries:
+        c = H.canon(t)
+        if not c.startswith("state.push("):
+            run.violation(fam, label, "try/" + c[:40], H.where(t), "vm::run propagates an error from `%s`: only State::push (StackOverflow) may fail" % c[:80])
+    # the End exit lies in the End arm; the exhausted exit is guarded by stack.is_empty()
+    arms = insn_arms(fn)
+    for r in rets:
+        if H.canon(r) == "return Ok(Some(state.saves))":
+            ea = arms.get("End", [])
+            if not ea or not any(x is r for x in H.walk(ea[0]["body"])):
+                run.violation(fam, label, "end-outside-arm", H.where(r), "a match is reported outside the End arm")
+    # the first executed statements: state, pc = 0, ix = pos, then the loop
+    lets = [(s["pat"].get("name"), H.canon(s.get("init"))) for s in fn["body"].get("stmts", []) if s["k"] == "Let" and s["pat"].get("k") == "Binding"]
+    POS = [p.get("name") for p in fn["params"]][2]
+    want = {"pc": "0", "ix": POS, "backtrack_count": "0"}
+    for k, v in want.items():
+        got = [b for a, b in lets if a == k]
+        if got != [v]:
+            run.violation(fam, label, "init/" + k, H.where(fn), "vm::run must start with %s = %s (found %s)" % (k, v, got))
+    top = [s for s in fn["body"].get("stmts", []) if s["k"] in ("ExprStmt", "Semi") and not H.macro_of(s)]
+    nonloop = [s for s in top if H.peel(s["e"]).get("k") not in ("Loop", "If")]
+    for s in nonloop:
+        run.violation(fam, label, "preamble/" + H.canon(s)[:30], H.where(s), "unexpected statement before the interpreter loop: %s" % H.canon(s)[:80])
+    for s in top:
+        e = H.peel(s["e"])
+        if e.get("k") == "If" and "OPTION_TRACE" not in H.canon(e["cond"]):
+            run.violation(fam, label, "shortcut/" + H.canon(e["cond"])[:30], H.where(s), "conditional shortcut before the interpreter loop: if %s" % H.canon(e["cond"])[:80])
+    run.ok(fam, label, H.where(fn), len(rets) + len(tries), "exits: End / exhausted / limit (+ StackOverflow via push?); no shortcut before the loop")
